@@ -851,6 +851,25 @@ func (c *Fn) NonNeg(i ssa.Value, at *ssa.BasicBlock) bool {
 	if c.E.NonNegOf != nil && c.E.NonNegOf(c, i) {
 		return true
 	}
+	// min of non-negatives; max with a non-negative
+	if call, ok := i.(*ssa.Call); ok {
+		n := ssau.CallName(call)
+		isMin := n == "builtin.min" || strings.HasSuffix(n, "/internal/utils.Min")
+		isMax := n == "builtin.max" || strings.HasSuffix(n, "/internal/utils.Max")
+		if (isMin || isMax) && len(call.Common().Args) > 0 {
+			all, any := true, false
+			for _, a := range call.Common().Args {
+				if c.NonNeg(a, at) {
+					any = true
+				} else {
+					all = false
+				}
+			}
+			if (isMin && all) || (isMax && any) {
+				return true
+			}
+		}
+	}
 	// x - y with 0 <= y <= x (no wrap-around: the difference lies in [0, x])
 	if bo, ok := i.(*ssa.BinOp); ok && bo.Op == token.SUB && !c.subBusy[bo] {
 		if c.subBusy == nil {
